@@ -145,12 +145,7 @@ GUARDED_READS = {
 
 # reads that ARE unsafe and are filed as an open finding (findings/C16.json); kept out of the skeleton so that the
 # closure obligation keeps guarding everything else.  Remove the entry once the repair is in the tree.
-KNOWN_UNBOUND = {
-    ('tt3_sony', 'print_service', 'service_type'):
-        'OPEN FINDING: FelicaStandard.dump() of a card that lists a service whose type is not random/cyclic/purse',
-    ('tt3_sony', 'print_service', 'access_types'):
-        'OPEN FINDING: FelicaStandard.dump() of a card that lists a service whose type is not random/cyclic/purse',
-}
+KNOWN_UNBOUND = {}
 # instance attributes a function may write inside a loop that contains clf.exchange (retry state that outlives the
 # call has to be part of the model: Model/IsoDep.v carries the block number)
 RETRY_STATE_ATTRS = {('tt4', 'exchange'): {'pni'}}
